@@ -1,4 +1,5 @@
 import Cx.Proofs.Nfa
+import Cx.Proofs.Pike
 /-
   C14 — each matching engine agrees with the reference on everything it accepts.
 
@@ -25,6 +26,25 @@ theorem C14_bt_search_leftmost (N : NFA) (h : Bytes) (at_ : Nat) (hat : at_ ≤ 
 
 theorem C14_positions_inside (N : NFA) (h : Bytes) (q i j : Nat) (r : Reaches N h q i j) (hi : i ≤ h.size) :
     i ≤ j ∧ j ≤ h.size := reaches_pos_le r hi
+
+/-! #### Pike VM (SlotTable family: SearchWithSlotTableAt; IsMatch from the legacy family) -/
+
+/-- hypotheses of the Pike theorems, all decided by the harness on every dumped NFA: separate unanchored start,
+    sparse states with pairwise disjoint ranges (the VM follows every matching transition, the reference the first),
+    no rune states or an ASCII haystack (rune states are mishandled by the VM on multi-byte input; the compiler never
+    emits them) -/
+theorem C14_pike_isMatch_iff {N : NFA} {h : Bytes} (hna : Pike.anchored N = false) (hS : Pike.SparseDet N) (hR : Pike.RuneOK N h) :
+    Pike.isMatch N h = true ↔ ∃ i j, i ≤ h.size ∧ Accepts N h i j := Pike.isMatch_iff hna hS hR
+
+/-- the ordered-thread simulation (thread priority, break at first match, per-position start injection, early exit)
+    returns exactly what the priority DFS returns: same leftmost start, same leftmost-first end -/
+theorem C14_pike_search_eq_reference {N : NFA} {h : Bytes} (hna : Pike.anchored N = false) (hd : Pike.SparseDisjoint N)
+    (hR : Pike.RuneOK N h) {at_ : Nat} (hat : at_ ≤ h.size) :
+    Pike.searchAt N h at_ false = btSearchAt N h at_ := Pike.search_eq_bt hna hd hR hat
+
+theorem C14_pike_search_sound {N : NFA} {h : Bytes} (hna : Pike.anchored N = false) (hS : Pike.SparseDet N) (hR : Pike.RuneOK N h)
+    {at_ s e : Nat} (hr : Pike.searchAt N h at_ false = some (s, e)) :
+    at_ ≤ s ∧ s ≤ e ∧ e ≤ h.size ∧ Accepts N h s e := Pike.search_sound hna hS hR hr
 
 /- non-vacuity: the NFA of `a|ab` (split, two byte paths) on "ab": first alternative wins -/
 def exN : NFA := { states := #[.split 1 2, .byteRange 97 97 5, .byteRange 97 97 3, .byteRange 98 98 5, .fail, .mtch],
